@@ -80,4 +80,18 @@ theorem finished_implies_captured (A : AF) (Q : QF) (hok : okOrder A Q = true) (
   · simp only [List.mem_singleton] at hw
     rcases he with he | he <;> rw [he] at hw <;> cases hw
 
+/-- the retry loop `for retry := 0; retry <= MaxRetry; retry++` runs its body exactly `MaxRetry + 1` times -/
+theorem attempts_le (A : AF) (h : A.retryLoopOp = .le) (maxRetry : Nat) : attempts A maxRetry = maxRetry + 1 := by
+  unfold attempts
+  rw [h, List.range_succ, List.filter_append]
+  have h1 : (List.range (maxRetry + 1)).filter (fun r => Cmp.le.eval r maxRetry) = List.range (maxRetry + 1) := by
+    apply List.filter_eq_self.2
+    intro a ha
+    simp only [List.mem_range] at ha
+    simp only [Cmp.eval, decide_eq_true_eq]
+    omega
+  have h2 : [maxRetry + 1].filter (fun r => Cmp.le.eval r maxRetry) = [] := by
+    simp [Cmp.eval]
+  rw [h1, h2]; simp
+
 end Zeno.Model.Warc
